@@ -5,7 +5,8 @@ O(n, m, s, items, t, o, ref, refs) ==
   [cls |-> "A", f |-> [n |-> IntV(n), m |-> IntV(m), s |-> [t |-> "str", v |-> s],
                         items |-> ListV([j \in 1..Len(items) |-> IntV(items[j])]),
                         t |-> [t |-> "tuple", v |-> [j \in 1..Len(t) |-> IntV(t[j])]],
-                        o |-> o, ref |-> ObjV(ref), refs |-> ListV([j \in 1..Len(refs) |-> ObjV(refs[j])])]]
+                        o |-> o, ref |-> ObjV(ref), refs |-> ListV([j \in 1..Len(refs) |-> ObjV(refs[j])]),
+                        d |-> [t |-> "dict", v |-> << <<[t |-> "str", v |-> <<1>>], IntV(m)>>, <<[t |-> "str", v |-> <<2>>], IntV(n)>> >>]]]
 RefW == [objs |-> << O(0, 1, <<>>, <<>>, <<0, 1>>, NoneV, 2, <<>>),
                      O(1, 1, <<1>>, <<0>>, <<1, 0>>, IntV(0), 3, <<1>>),
                      O(2, 0, <<1, 2>>, <<1, 2>>, <<2, 2>>, IntV(1), 1, <<2, 3>>),
